@@ -115,13 +115,15 @@ bool ThreadPool::initialize(ssize_t min_thread_num, ssize_t max_thread_num)
         std::lock_guard<std::mutex> lg(d_->lock);
         d_->min_thread_num = min_thread_num;
         d_->max_thread_num = max_thread_num;
+        //! 必须在创建常驻线程之前清除停止标记，否则 cleanup() 之后再 initialize() 时，
+        //! 新线程可能看到上一次 cleanup() 留下的标记而立即退出
+        d_->all_threads_stop_flag = false;
 
         for (ssize_t i = 0; i < min_thread_num; ++i)
             if (!createWorker())
                 return false;
     }
 
-    d_->all_threads_stop_flag = false;
     d_->is_ready = true;
 
     return true;
